@@ -178,7 +178,23 @@ func runC12(w *mon.W) {
 				}
 			}
 			rest := strings.ReplaceAll(alpha, string(least), "")
-			if r.Intn(3) == 0 || rest == "" {
+			if r.Intn(4) == 0 && rest != "" {
+				kind = "interrupted-run"
+				m := 2 + r.Intn(300)
+				b := []byte(strings.Repeat(string(alpha[r.Intn(len(alpha))]), m))
+				pos := []int{m - 1, m - 2, m - 3, 0, 1, 2, r.Intn(m)}[r.Intn(7)]
+				if pos < 0 {
+					pos = 0
+				}
+				for {
+					c := alpha[r.Intn(len(alpha))]
+					if c != b[0] || len(alpha) == 1 {
+						b[pos] = c
+						break
+					}
+				}
+				s = string(b)
+			} else if r.Intn(3) == 0 || rest == "" {
 				kind = "truncated-tandem-array"
 				u := randString(r, alpha, 2+r.Intn(9))
 				reps := 2 + r.Intn(60)
@@ -227,7 +243,7 @@ func runC12(w *mon.W) {
 		c12Judge(w, id, s)
 		rot := rotate(s, r.Intn(len(s)))
 		c12Judge(w, id, rot)
-		if (kind == "tied-tracts" || kind == "truncated-tandem-array") && len(s) < 2000 {
+		if (kind == "tied-tracts" || kind == "truncated-tandem-array" || kind == "interrupted-run") && len(s) < 2000 {
 			for j := 0; j < 12; j++ { // the written origin inside a tract, at its ends, anywhere
 				c12Judge(w, id, rotate(s, r.Intn(len(s))))
 			}
